@@ -124,6 +124,35 @@ func layoutJudge(env *hx.Env, m layoutMeta) (hx.Verdict, string) {
 		}
 		return hx.Failf(P+"|tokens-differ|"+cls, "%s\n--- setup ---\n%s\n--- output ---\n%s", d, m.File.Render(), o.Out), "tokens-differ"
 	}
+	// carried-over comments must still be attached to their declarations
+	wantDocs, err1 := pg.DocAttachments(pg.Gofmt(m.File.Skeleton()))
+	gotDocs, err2 := pg.DocAttachments(pg.Gofmt(rest))
+	if err1 == nil && err2 == nil {
+		for _, k := range pg.SortedKeys(wantDocs) {
+			if strings.Contains(k, "_generated_block_") {
+				continue
+			}
+			if gotDocs[k] != wantDocs[k] {
+				cls := "doc"
+				// known construct: a directive (go:generate) is the LAST line of the doc comment; removing it
+				// leaves a one-line gap, so the remaining comment is printed detached from its declaration
+				if k == "package" && m.File.GoGenerateAtPackage && len(m.File.PkgDoc) > 0 {
+					cls = "directive-last-line-of-doc-comment"
+				}
+				for _, it := range m.File.Items {
+					if it.Kind == "decl" && strings.Contains(it.Text, "//go:generate") && len(it.Names) > 0 && strings.HasSuffix(k, " "+it.Names[0]) {
+						lines := strings.Split(strings.TrimSpace(it.Text), "\n")
+						for i, ln := range lines {
+							if strings.HasPrefix(ln, "//go:generate") && i+1 < len(lines) && !strings.HasPrefix(lines[i+1], "//") {
+								cls = "directive-last-line-of-doc-comment"
+							}
+						}
+					}
+				}
+				return hx.Failf(P+"|comment-detached-from-its-declaration|"+cls, "the comment attached to %q is %q in the setup file but %q in the output\n--- setup ---\n%s\n--- output ---\n%s", k, wantDocs[k], gotDocs[k], m.File.Render(), o.Out), "comment-detached"
+			}
+		}
+	}
 	// doc comments of generated functions = the non-notation lines of the method comment
 	docOf := map[string][]string{}
 	for _, g := range found {
@@ -222,6 +251,17 @@ func layoutClasses(rec *hx.Recorder, f *pg.LFile) []string {
 	if f.OldTag {
 		add("+build-line")
 	}
+	if len(f.Header) > 0 {
+		add("comment-sharing-the-group-of-the-build-constraint")
+	}
+	if f.GoGenerateAtPackage {
+		add("go:generate-as-package-doc")
+	}
+	for _, it := range f.Items {
+		if it.Kind == "decl" && strings.Contains(it.Text, "//go:generate") {
+			add("go:generate-inside-a-doc-comment")
+		}
+	}
 	nconv := len(f.Converters())
 	add(fmt.Sprintf("converters=%d", nconv))
 	for i, it := range f.Items {
@@ -312,7 +352,7 @@ func TestC11(t *testing.T) {
 			"Non-trivial: layout with a package doc, a free-floating comment adjacent to an interface, a comment-less method, a block comment or >= 2 converter interfaces; distinct by setup text.",
 		400, 12000,
 		func(rt *rapid.T) layoutMeta {
-			f := pg.GenLayoutFile(rt, pg.LayoutProfile{MaxItems: 8, MaxConverters: 3, Comments: true, Unmarked: true})
+			f := pg.GenLayoutFile(rt, pg.LayoutProfile{MaxItems: 8, MaxConverters: 3, Comments: true, Unmarked: true, Directives: true})
 			m := layoutMeta{}
 			addImportItems(rt, f, &m)
 			m.File = *f
